@@ -18,7 +18,9 @@ EXPLANATION = (
     "non-fresh container, no hook, no opaque callee, transitively over the resolved call graph; the lazy initialisation of "
     "the children list is the one recognised idiom and warnings.warn in the deprecated alias the one reasoned exception), "
     "carries no decorator other than property, and reads no module- or class-level mutable state; the iterators they use "
-    "are effect-free apart from their own fields. N2 structural definitional checks that are shape-independent: is_root "
+    "are effect-free apart from their own fields. N3 dependency footprint: the parent-chain attributes (path, ancestors, root, "
+    "depth, is_root, ...) read only the parent direction of the links, the subtree attributes (descendants, leaves, height, "
+    "size, is_leaf) only the children direction, transitively through getters and iterators. N2 structural definitional checks that are shape-independent: is_root "
     "tests the parent against None by identity, is_leaf tests emptiness of the children list, siblings/ancestors return () "
     "for a root. Not decided: that height, depth, siblings, commonancestors … compute the right value."
 )
@@ -119,6 +121,58 @@ def run(ctx):
                 ctx.inst("N2", f, f.qual, "%s of a root is ()" % name)
             else:
                 ctx.viol("N2", f, f.node, "%s does not return () exactly when the parent is None" % name, construct="%s.%s root case" % (m, name))
+    # ---- N3: dependency footprint — which link direction each member may read
+    PSET = {"parent", "__parent"}
+    CSET = {"children", "__children", "__children_or_empty"}
+    from ..nodetype import has_node
+    direct = {}
+    for f in p.all_funcs:
+        ft = typer.results.get(f)
+        d = set()
+        if ft is not None:
+            for n in walk_own(f.node):
+                if isinstance(n, ast.Attribute) and isinstance(n.ctx, ast.Load) and has_node(ft.type_of(n.value)):
+                    if n.attr in PSET:
+                        d.add("P")
+                    elif n.attr in CSET:
+                        d.add("C")
+        direct[f] = d
+    total = {f: set(d) for f, d in direct.items()}
+    changed = True
+    while changed:
+        changed = False
+        for f in p.all_funcs:
+            for site, t in pur.calls.get(f, []):
+                if isinstance(t, tuple):
+                    t = t[1]
+                add = total.get(t, set()) - total[f]
+                if add:
+                    total[f] |= add
+                    changed = True
+            for g in f.nested:
+                add = total.get(g, set()) - total[f]
+                if add:
+                    total[f] |= add
+                    changed = True
+    allowed = {"parent": "P", "path": "P", "_path": "P", "iter_path_reverse": "P", "ancestors": "P", "anchestors": "P", "root": "P",
+               "is_root": "P", "depth": "P", "children": "C", "descendants": "C", "leaves": "C", "is_leaf": "C", "height": "C", "size": "C",
+               "siblings": "PC", "commonancestors": "P", "leftsibling": "PC", "rightsibling": "PC"}
+    for f in members(p):
+        want = set(allowed.get(f.srcname, "PC"))
+        got = total.get(f, set())
+        extra = got - want
+        if extra:
+            ctx.viol("N3", f, f.node, "%s reads the %s direction of the links (directly or through what it calls); by definition it depends only "
+                     "on %s — its value is no longer the one the definition gives" % (
+                         f.qual, "/".join("parent" if x == "P" else "children" for x in sorted(extra)),
+                         "/".join("parent" if x == "P" else "children" for x in sorted(want))),
+                     construct="%s footprint %s, allowed %s" % (f.qual, "".join(sorted(got)), "".join(sorted(want))))
+        elif not (got & want) and f.srcname not in ("parent", "children"):
+            ctx.viol("N3", f, f.node, "%s does not read the links at all: its value cannot follow the current structure" % f.qual,
+                     construct="%s footprint empty" % f.qual)
+        else:
+            ctx.inst("N3", f, f.qual, "reads only the %s direction" % "/".join(sorted(got)))
     ctx.floor("N1", 30)
     ctx.floor("N2", 8)
+    ctx.floor("N3", 30)
     ctx.extra["effect_summary"] = {f.qual: sorted({e.kind for e in pur.effects(f)}) for f in members(p)}
